@@ -12,7 +12,7 @@
 From Coq Require Import NArith List Bool.
 From AV Require Import Generated.Table Spec.Io Spec.Strip Model.Base Model.Utf8parse Model.Parser Model.Strip
   Model.Stream Proofs.TableFacts Proofs.StripMachine Proofs.StripSim Proofs.StreamIo Proofs.Stream
-  Proofs.StreamAuto.
+  Proofs.StreamAuto Generated.StreamFn Proofs.StreamGen.
 Import ListNotations.
 Local Open Scope N_scope.
 
@@ -82,3 +82,12 @@ Theorem c08_example :
        [OWrite [97; 27; 91]; OWriteAll [49; 109; 98]; OWriteFmt [[27; 91; 109]; [99]]] = Some (s', w', rs) /\
      w_received w' = [97; 27; 91; 49; 109; 98; 27; 91; 109; 99] /\ rs = [ROkN 3; ROk; ROk]).
 Proof. vm_compute. repeat split; repeat eexists. Qed.
+
+(* the Strip arm is the Rust code itself: the functions of crates/anstream/src/strip.rs TRANSLATED
+   (Generated/StreamFn.v, tools/gen_fn_stream.py; regenerated on every run) and driven by any
+   operation sequence answer what the model of AutoStream built with Never answers *)
+Theorem c08_translated_never_is_model :
+  forall b d ops x,
+  match g_ss_run x ops with Some (x1, rs) => Some (ss_state x1, ss_raw x1, rs) | None => None end
+  = run_ops b (auto_mode CNever d) (ss_state x) (ss_raw x) ops.
+Proof. exact translated_never_is_model. Qed.
